@@ -143,7 +143,7 @@ def replay(verdict, exe, res, aspects, pol=None, seed=0, renderings=("canonical"
         replay_obj = {"behaviour": b, "texts": texts}
         if g["crash"]:
             verdict.violation("%s:%s:%s" % (sigprefix, g["crash"]["kind"], desc),
-                              "%s while executing %s :: %s" % (g["crash"]["kind"], desc, g["crash"]["detail"][-1500:]),
+                              "%s while executing %s :: %s" % (g["crash"]["kind"], desc, g["crash"]["detail"][:1500]),
                               dict(replay_obj, crash=g["crash"]))
             continue
         plines = [l for l in g["lines"] if l["cmd"] == "parsebuf"]
